@@ -1,7 +1,7 @@
 SPECIFICATION Spec
-CONSTANTS MaxH = 4
+CONSTANTS MaxH = 3
           MaxCrash = 1
-          MaxMut = 3
+          MaxMut = 2
           MaxLen = 99
           Kinds = {"h_same", "reoffer", "reoffer_old", "h_plus2", "prev_unknown", "prev_old", "ts_eq", "ts_less", "root_bad", "root_stale", "sr_bad", "child_of_fork"}
           HdrOps = {"hdr_next", "hdr_fork"}
